@@ -80,6 +80,7 @@ struct Opts {
 	size_t out_hint = 0;        // expected output size (initial buffer capacity)
 	size_t small_call_budget = 20000; // after this many calls the tail pieces become "everything" (keeps 1-byte schedules affordable on MiB inputs)
 	size_t idle_limit = 3;      // consecutive no-progress calls with everything offered (threaded coders with a timeout: raise)
+	bool input_beyond_declared_size = false; // MicroLZMA decoder: it never reads past the comp_size it was told, so unread input + free output + LZMA_BUF_ERROR is legitimate there
 	// called after every lzma_code(); return false to stop the loop
 	bool (*hook)(lzma_stream *, lzma_ret, void *) = nullptr; void *hook_arg = nullptr;
 };
@@ -140,6 +141,11 @@ static inline Result run(lzma_stream *strm, const uint8_t *in, size_t n, const S
 		} else if (ret == LZMA_NO_CHECK || ret == LZMA_UNSUPPORTED_CHECK || ret == LZMA_GET_CHECK) {
 			r.info.push_back((int)ret);
 		} else if (ret == LZMA_BUF_ERROR) {
+			// base.h: LZMA_BUF_ERROR means no progress is *possible*.  A call that was handed both unread input and free output
+			// space can always make progress (or fail for another reason, or - threaded coders - wait / time out with LZMA_OK).
+			if (given - consumed > 0 && win > 0 && !o.input_beyond_declared_size)
+				vg::violation("C11:buf-error-with-input-and-output-space", "call %zu returned LZMA_BUF_ERROR although it was given %zu bytes of unread input and %zu bytes of output space (total_in %llu)",
+					r.calls, given - consumed, win, (unsigned long long)strm->total_in);
 			if (everything) { r.ret = ret; break; }
 			// non-fatal: continue with the next pieces
 		} else if (ret == LZMA_MEMLIMIT_ERROR && !o.stop_on_memlimit) {
